@@ -151,8 +151,12 @@ CLAIMED = {
               "n*d = n-fold sum, a-b = a+(-1)b; == is an equivalence, exact durations equal iff lengths equal, general characterisation "
               "(exactness, years, months, length); equal durations have equal hash keys; (days, seconds) is a normal form of the rough "
               "length and < <= > >= are its order (year = common-year length of the mode, month = 30 days)."),
-        note="TimeZone (subclass) excluded as the property says; decimal components compared exactly only when binary-exact.",
-        technique="Coq algebraic proofs over Q + correspondence on a duration pool",
+        note=("Props/C11Code.v: the bodies of 22 methods of class Duration (observers, ==, the hashed tuple, the four orderings, + - * // abs bool, "
+              "__init__, to_days, to_weeks) are translated from /repo on every run (gen/GenCode3.v, exception monad over a state record mirroring "
+              "__slots__) and proved equal to the model functions the theorems above are about, on every state that denotes a duration; "
+              "Props/C11Tables.v ties the calendar constants (rough year = common-year length) to the translated set_mode expressions. "
+              "TimeZone (subclass) excluded as the property says; decimal components compared exactly only when binary-exact."),
+        technique="Coq algebraic proofs over Q + method bodies translated from the source and proved equal to the model + correspondence on a duration pool",
         design="7 C11"),
     "C12": dict(
         text=("Theorems (Props/C12.v), for exact intervals of positive length, any valid anchor, unbounded or n >= 2: each of the three "
